@@ -96,8 +96,13 @@ def to_coq(c):
     return "mk %s %s %s %s" % (BK[c["bk"]], decls, nets, qs)
 
 
+FIRST_V4 = 0xffff << 32
+
+
 def _f20_shape(s):
-    return _int16(s["a"]) == 0 and 1 <= s["l"] <= 79
+    """an IPv6 subnet other than ::/0 that overlaps ::ffff:0:0/96: length 1..95 and it contains ::ffff:0:0"""
+    l = s["l"]
+    return 1 <= l <= 95 and (_int16(s["a"]) >> (128 - l)) == (FIRST_V4 >> (128 - l))
 
 
 def _map_for(c, q):
@@ -123,7 +128,7 @@ def _relevant_nets(c, q):
 
 def known_finding(c, findings):
     """F20: only RocksDB / Rearranger cases in which EVERY query selects a map whose subnet set contains an IPv6
-    subnet ::/N, 1 <= N <= 79, and no query ended in a panic or an error.  The CDB backends must still satisfy
+    subnet other than ::/0 that overlaps ::ffff:0:0/96 (::/N for 1 <= N <= 80, prefixes of ::ffff:0:0 of length 81..95), and no query ended in a panic or in an error other than the duplicate-range-point one.  The CDB backends must still satisfy
     the spec on such sets."""
     if c["bk"] not in ("rr", "v1", "v2") or not c["qs"]:
         return None
